@@ -11,6 +11,7 @@ import (
 	"time"
 
 	netty "github.com/go-netty/go-netty"
+	"github.com/go-netty/go-netty/transport"
 	"github.com/go-netty/go-netty/utils/pool/pbytes"
 	"nvharness/mock"
 )
@@ -277,4 +278,64 @@ wait:
 	}
 	emit("C18 park wait=%d early=%d late=%d errs=%d wirelen=%d", int(wait/time.Millisecond), early, late, errs, len(tr.Written()))
 	ch.Close(nil)
+}
+
+// C02, sustained traffic in lock-step: the transport lets one gathering write through at a time, and before each
+// is let through the next payload has been accepted, so that every round of the sender finds the queue non-empty.
+// When the traffic stops, everything accepted must have been handed to the transport.
+func runC02burst() {
+	for _, n := range []int{5, 17, 20, 25, 33, 40} {
+		emit("#case c02burst-%d", n)
+		pl := netty.NewPipeline()
+		tr := mock.NewTransport()
+		gate := make(chan struct{}, 256)
+		entered := make(chan struct{}, 256)
+		gt := &gatedTransport{Transport: tr, entered: entered, gate: gate}
+		ch := netty.NewAsyncWriteChannel(4, true)(int64(n), context.Background(), pl, gt, goExec{})
+		netty.NvAttach(pl, ch)
+		accepted := 0
+		waitEntered := func() {
+			select {
+			case <-entered:
+			case <-time.After(300 * time.Millisecond):
+			}
+		}
+		for i := 0; i < n; i++ {
+			if _, err := ch.Write1([]byte{byte(i)}); err == nil {
+				accepted++
+			}
+			if i == 0 {
+				waitEntered() // the sender is inside its first gathering write
+			} else {
+				gate <- struct{}{} // the previous round's write goes through now that the queue has been refilled
+				waitEntered()      // … and the sender is inside the next one
+			}
+		}
+		for i := 0; i < 64; i++ {
+			gate <- struct{}{}
+		}
+		deadline := time.Now().Add(1500 * time.Millisecond)
+		for len(tr.Written()) < accepted && time.Now().Before(deadline) {
+			time.Sleep(200 * time.Microsecond)
+		}
+		emit("C02 burst n=%d accepted=%d delivered=%d", n, accepted, len(tr.Written()))
+		close(gate)
+		go ch.Close(nil) // not waited for: with a stranded payload a channel that waits for pending writes never finishes closing
+	}
+}
+
+// gatedTransport lets one gathering write through per token and reports when the sender is inside one
+type gatedTransport struct {
+	*mock.Transport
+	entered chan struct{}
+	gate    chan struct{}
+}
+
+func (g *gatedTransport) Writev(bufs transport.Buffers) (int64, error) {
+	select {
+	case g.entered <- struct{}{}:
+	default:
+	}
+	<-g.gate
+	return g.Transport.Writev(bufs)
 }
